@@ -11,6 +11,7 @@ import (
 	"sort"
 	"strconv"
 	"strings"
+	"unicode/utf8"
 
 	"github.com/grindlemire/go-lucene/pkg/driver"
 	"github.com/grindlemire/go-lucene/pkg/lucene/expr"
@@ -253,7 +254,7 @@ func cmdFoldDocs(args []string) {
 			n++
 			runs++
 			r.write(map[string]any{"id": c.ID, "q": c.Doc, "tree": Tree{"op": "LIT", "ty": "str", "v": "undefined", "sg": "x"}, "runs": []any{run},
-				"obs": map[string]any{"sql": obsCall{Out: "err", Empty: true}, "sqlp": obsCall{Out: "err", Empty: true}}})
+				"obs": map[string]any{"sql": obsCall{Out: "err", Empty: true}, "sqlp": obsCall{Out: "err", Empty: true}}, "suffix_tok": false})
 			continue
 		}
 		if outcomeOf(func() error { return expr.Validate(&e) }) != "ok" {
@@ -268,7 +269,7 @@ func cmdFoldDocs(args []string) {
 		variants := foldVariants(&e, tree)
 		n++
 		runs += len(variants)
-		r.write(map[string]any{"id": c.ID, "q": c.Doc, "tree": tree, "runs": variants, "obs": obs})
+		r.write(map[string]any{"id": c.ID, "q": c.Doc, "tree": tree, "runs": variants, "obs": obs, "suffix_tok": false})
 	}
 	summary(map[string]any{"trees": n, "renders": runs})
 }
@@ -315,28 +316,61 @@ func cmdFoldGroups(args []string) {
 			observeAll(pr)
 			variants := foldVariants(pr.expr, pr.Tree)
 			runs += len(variants)
-			r.write(map[string]any{"id": c.ID, "q": q, "tree": pr.Tree, "runs": variants, "obs": pr.Obs})
+			r.write(map[string]any{"id": c.ID, "q": q, "tree": pr.Tree, "runs": variants, "obs": pr.Obs, "suffix_tok": hasSuffixTok(pr.Toks)})
 		}
 	}
 	summary(map[string]any{"trees": n, "renders": runs})
 }
 
-// cmdFoldText: the renders of a single query text (replay of one case).
+// cmdFoldText: the renders of a single query text (replay of one case), or with -in of every text of a file (one JSON
+// string per line).  Texts whose values hold quote characters are C02's / C08's subject and are skipped in file mode.
 func cmdFoldText(args []string) {
 	fs := newFlags("fold-text", args)
 	q := fs.String("q", "", "query text")
+	in := fs.String("in", "", "file of query texts (JSON strings, one per line)")
 	out := fs.String("out", "", "output ndjson")
 	fs.Parse(args)
 	customiseOneDriver()
 	r, closeFn := newRecorder(*out, false)
 	defer closeFn()
-	pr := r.record(1, *q, "")
-	if pr.expr == nil {
-		summary(map[string]any{"trees": 0})
-		return
+	texts := []string{*q}
+	if *in != "" {
+		texts = texts[:0]
+		f, err := os.Open(*in)
+		if err != nil {
+			fatal(err)
+		}
+		defer f.Close()
+		sc := bufio.NewScanner(f)
+		sc.Buffer(make([]byte, 1<<20), 1<<28)
+		for sc.Scan() {
+			var t string
+			if json.Unmarshal(sc.Bytes(), &t) == nil {
+				texts = append(texts, t)
+			}
+		}
 	}
-	observeAll(pr)
-	variants := foldVariants(pr.expr, pr.Tree)
-	r.write(map[string]any{"id": 1, "q": *q, "tree": pr.Tree, "runs": variants, "obs": pr.Obs})
-	summary(map[string]any{"trees": 1, "renders": len(variants)})
+	trees, renders := 0, 0
+	for i, t := range texts {
+		pr := r.record(i+1, t, "")
+		if pr.expr == nil || (*in != "" && (hasBad(pr.Tree) || !utf8.ValidString(t))) {
+			continue
+		}
+		observeAll(pr)
+		variants := foldVariants(pr.expr, pr.Tree)
+		r.write(map[string]any{"id": i + 1, "q": t, "tree": pr.Tree, "runs": variants, "obs": pr.Obs, "suffix_tok": hasSuffixTok(pr.Toks)})
+		trees++
+		renders += len(variants)
+	}
+	summary(map[string]any{"trees": trees, "renders": renders})
+}
+
+// hasSuffixTok: the query text contains a ~ or ^ operator token (whatever the parser made of it)
+func hasSuffixTok(toks []Tok) bool {
+	for _, t := range toks {
+		if t.T == "TILDE" || t.T == "CARROT" {
+			return true
+		}
+	}
+	return false
 }
